@@ -976,6 +976,12 @@ func genSoil(sc *Scenario, r *Rng, p Profile) {
 		if stony {
 			h.Stone = r.Range(0, 90)
 		}
+		if h.Texture[0] == 'H' && s.CSV {
+			// a peat horizon given with its measured bulk density: 0.15 - 0.6 g/cm3 (the density classes start at 1.1)
+			if rb := NewRng(mix(mix(sc.Seed, uint64(sc.Index)), uint64(1700+b))); rb.Bool(0.6) {
+				h.BD = float64(rb.Range(15, 60)) / 100
+			}
+		}
 		if h.Texture[0] == 'H' && route == 0 {
 			// (texture-table route only: the transfer functions are made for mineral soils) a peat horizon mostly carries the organic carbon of peat (the potential mineralisation has branches of its own
 			// above 5 % and above 14 %)
